@@ -85,13 +85,18 @@ def build_cases(graphs, tier, rng, workdir):
     schema_path = os.path.join(workdir, "adv.graphql")
     vlib.write_if_changed(schema_path, SCHEMA % {"deep": "Int", "inputs": base_inputs})
     cases = []
-    sel = graphs if tier == "thorough" else (
-        [g for g in graphs if len(g["edges"]) <= 2] + rng.sample(graphs, min(60, len(graphs))))
+    if tier == "thorough":
+        # every graph with at most 4 edges and a seeded sample of the denser ones
+        sel = [g for g in graphs if len(g["edges"]) <= 4]
+        dense = [g for g in graphs if len(g["edges"]) > 4]
+        sel = sel[:3000] + rng.sample(dense, min(1500, len(dense)))
+    else:
+        sel = [g for g in graphs if len(g["edges"]) <= 2] + rng.sample(graphs, min(60, len(graphs)))
     for g in sel:
         for kind in ("obj", "iface", "uni"):
             for place in ("direct", "field", "inline"):
                 for tn in (True, False):
-                    if tier == "quick" and rng.random() < 0.6 and len(g["edges"]) > 2:
+                    if len(g["edges"]) > 2 and rng.random() < (0.6 if tier == "quick" else 0.8):
                         continue
                     cases.append({"class": "spread-cycle", "detail": {"graph": g, "on": kind, "place": place, "typename": tn},
                                   "schema_path": schema_path, "query": frag_doc(g, kind, place, tn)})
@@ -104,7 +109,7 @@ def build_cases(graphs, tier, rng, workdir):
                     cases.append({"class": "spread-cycle-long", "detail": {"graph": g, "on": kind, "place": place, "typename": tn},
                                   "schema_path": schema_path, "query": frag_doc(g, kind, place, tn)})
     # input type graphs
-    isel = graphs if tier == "thorough" else rng.sample(graphs, min(80, len(graphs)))
+    isel = rng.sample(graphs, min(80 if tier == "quick" else 1500, len(graphs)))
     for g in isel:
         for kind in ("nonnull", "nullable", "list", "nnlist"):
             sp = os.path.join(workdir, "in_%s_%s.graphql" % (vlib.stable_hash(g), kind))
